@@ -1061,6 +1061,8 @@ fn get_circuit_info(
     let mut stack: Vec<(ConcreteTypeId, bool)> = circ_outputs
         .map(|generic_arg| (extract_matches!(generic_arg, GenericArg::Type).clone(), true))
         .collect();
+    // The gates whose inputs are being visited.
+    let mut in_progress = UnorderedHashSet::<ConcreteTypeId>::default();
 
     while let Some((ty, first_visit)) = stack.pop() {
         let long_id = &context.get_type_info(&ty)?.long_id;
@@ -1076,6 +1078,10 @@ fn get_circuit_info(
             .map(|generic_arg| extract_matches!(generic_arg, GenericArg::Type));
 
         if first_visit {
+            // A gate that (transitively) uses its own output - possible through recursive type
+            // declarations - does not describe a circuit.
+            require(in_progress.insert(ty.clone()))
+                .ok_or(SpecializationError::UnsupportedGenericArg)?;
             stack.push((ty, false));
             stack.extend(gate_inputs.map(|ty| (ty.clone(), true)))
         } else {
